@@ -35,7 +35,7 @@ T = {
  # ---- batch 3 (c) and batch 4 (d); C09a/C12b/C13b re-targeted after the guard model / concrete-sketch admission queries
  "C01c": ("C01", r"l_purge_fresh_front_keeps_watermark$"),
  "C04c": ("C04", r"l_upsert_update_n1$"),
- "C05c": ("C05", r"l_upsert_update_n2_lru_ttl$|s_upsert_new_fits$"),
+ "C05c": ("C05", r"l_sync_round_plain_late$|l_upsert_update_n2_lru_ttl$"),
  "C06c": ("C06", r"s_get0_tti_deadline$"),
  "C07c": ("C07", r"l_purge_fresh_front_keeps_watermark$"),
  "C08c": ("C08", r"l_burst_ins1_inv0_cap1_hot$"),
@@ -58,7 +58,7 @@ T = {
  "C10d": ("C10", r"insert_upd0_n2_w_oversize$"),
  "C11d": ("C11", r"purge_both_tti_only_w$"),
  "C12d": ("C12", r"get_hit1_n2_tti_sym$|get_hit0_n2_ttl_sym$"),
- "C13d": ("C13", r"insert_new_n2_full$"),
+ "C13d": ("C13", r"insert_new_n2_w_sketch_off$|admit_lemma_n1$"),
  "C14d": ("C14", r"invalidate_all_n2$|invalidate_all_both$"),
  "C16d": ("C16", r"iter_both_ttl_only_expired$|k1_is_expired_entry_reads_the_entrys_own_nodes$"),
 }
